@@ -52,10 +52,55 @@ def rot(prog, ctx):
         R2 = R2.subs({cos(alpha): c, sin(alpha): s})
         ok = R2 == sp.Matrix([[c, -s], [s, c]])
         ctx.decide('C16.b', 'Rotation_Matrix:2D', fn, ok, '[[c,-s],[s,c]]', '2D rotation is %s' % R2.tolist(), form=str(R2.tolist()))
+    ax = Function(fn.params[2]['name'], real=True)
+    if len(o3) > 1 and all(isinstance(o.value, Arr) for o in o3):
+        # special cases in front of the general formula: each must return Rodrigues' matrix of the normalised axis for every
+        # axis it accepts; decided on the axes with components from {0, 2, -3}
+        def special(o):
+            cs_ = list(o.cond.args) if isinstance(o.cond, sp.And) else [o.cond]
+            return any(isinstance(c_, sp.Equality) and any(a_.func == ax for a_ in c_.atoms(sp.core.function.AppliedUndef)) for c_ in cs_)
+        shortcuts = [o for o in o3 if special(o)]
+        general = [o for o in o3 if not special(o)]
+        if len(general) == 1 and shortcuts:
+            import itertools
+            bad = []
+            epsl = lambda i, j, k: sp.LeviCivita(i, j, k)
+            for o in shortcuts:
+                Rs = sp.Matrix(3, 3, lambda i, j: o.value.read((sp.Integer(i), sp.Integer(j)))).subs({cos(alpha): c, sin(alpha): s})
+                for av in itertools.product((0, 2, -3), repeat=3):
+                    if av == (0, 0, 0):
+                        continue
+                    sub = {ax(0): av[0], ax(1): av[1], ax(2): av[2], dim: 3}
+                    sub.update({y_: 3 for y_ in o.cond.free_symbols if y_.name == fn.params[2]['name'] + '.dimension'})
+                    cv = o.cond.subs(sub)
+                    if cv == S.false:
+                        continue
+                    if cv != S.true:
+                        bad = None
+                        break
+                    nn = sp.sqrt(sum(x_ * x_ for x_ in av))
+                    nv_ = [sp.Integer(x_) / nn for x_ in av]
+                    Rod_ = sp.Matrix(3, 3, lambda i, j: c * (1 if i == j else 0) + (1 - c) * nv_[i] * nv_[j] - s * sum(epsl(i, j, k) * nv_[k] for k in range(3)))
+                    Rv = Rs.subs(sub)
+                    if Rv.atoms(sp.core.function.AppliedUndef):
+                        bad = None
+                        break
+                    diff = [(i, j) for i in range(3) for j in range(3) if sp.simplify(Rv[i, j] - Rod_[i, j]) != 0]
+                    if diff:
+                        bad.append({'axis': list(av), 'entry': list(diff[0]), 'returned': str(Rv[diff[0]]), 'expected': str(Rod_[diff[0]])})
+                if bad is None:
+                    break
+            if bad is None:
+                ctx.undecided('C16.a', 'Rotation_Matrix:special-axes', fn, 'a special case in front of the general formula does not evaluate on the sample axes')
+                return
+            ctx.decide('C16.a', 'Rotation_Matrix:special-axes', fn, not bad, '%d special case(s) return Rodrigues\' matrix for every sample axis they accept' % len(shortcuts),
+                       'a special case returns a different rotation than the general formula: axis %s, entry %s is %s, expected %s' %
+                       ((bad[0]['axis'], bad[0]['entry'], bad[0]['returned'], bad[0]['expected']) if bad else ('', '', '', '')),
+                       witness={'cases': bad[:3]} if bad else None)
+            o3 = general
     if len(o3) != 1 or not isinstance(o3[0].value, Arr):
         ctx.undecided('C16.a', 'Rotation_Matrix:3D', fn, '3D branch not recognised (%d candidates)' % len(o3))
         return
-    ax = Function(fn.params[2]['name'], real=True)
     n = sp.symbols('n1 n2 n3', real=True)
     R = sp.Matrix(3, 3, lambda i, j: o3[0].value.read((sp.Integer(i), sp.Integer(j))))
     R = R.subs({cos(alpha): c, sin(alpha): s}).subs({ax(0): n[0], ax(1): n[1], ax(2): n[2]})
@@ -66,7 +111,15 @@ def rot(prog, ctx):
     # the axis is normalised before its components are read
     norm_line = None
     first_read = None
+    from ..ir import walk_stmts as _ws, walk_expr as _we
+    in_tests = set()
+    for s_ in _ws(fn.body):
+        if s_['k'] == 'If' and s_.get('cond') is not None:
+            for n_ in _we(s_['cond']):
+                in_tests.add(id(n_))       # a test on the raw axis selects a special case; the formula reads come later
     for e in all_exprs(fn):
+        if id(e) in in_tests:
+            continue
         if e.get('k') == 'Call' and e.get('kind') == 'method' and e['callee']['name'] == 'Normalize' and strip(e['obj']).get('name') == fn.params[2]['name']:
             norm_line = e['l'] if norm_line is None else norm_line
         if e.get('k') == 'Index' and strip(e['base']).get('name') == fn.params[2]['name'] and first_read is None:
